@@ -112,7 +112,7 @@ func TestVerifHardLimitBacklog(t *testing.T) {
 			}
 			// the remover reaches the gate for what was just evicted
 			if !held && c.lru.queuedEvictionsSize.Load() > 0 {
-				held = waitArrival(2 * time.Second)
+				held = waitArrival(10 * time.Second)
 			}
 			// let it perform 0..2 unlinks
 			for k := rng.Intn(3); k > 0 && held; k-- {
@@ -123,7 +123,7 @@ func TestVerifHardLimitBacklog(t *testing.T) {
 					time.Sleep(time.Millisecond)
 				}
 				if !held && c.lru.queuedEvictionsSize.Load() > 0 {
-					held = waitArrival(2 * time.Second)
+					held = waitArrival(10 * time.Second)
 				}
 			}
 		}
@@ -135,7 +135,7 @@ func TestVerifHardLimitBacklog(t *testing.T) {
 			release <- struct{}{}
 			held = waitArrival(60 * time.Millisecond)
 			if !held && c.lru.queuedEvictionsSize.Load() > 0 {
-				held = waitArrival(2 * time.Second)
+				held = waitArrival(10 * time.Second)
 			}
 		}
 		vQuiesce(c)
